@@ -274,9 +274,9 @@ def run(db, chk) -> None:
                     names = [c for c, _ in cols]
                     num = dict(cols).get(names[3]) if len(names) > 3 else None
                     okpos = names[:2] == ["ts", "dur"] and cols[0][1] == T.col(DF, "ts") and cols[1][1] == T.col(DF, "dur") and num is not None and \
-                        T.find(num, lambda s: s[0] == "re" or (s[0] == "call" and "re.match" in str(s[1]))) != [] and "ProfilerStep" in T.show(num)
+                        (T.find(num, lambda s: s[0] == "re" or (s[0] == "call" and "re.match" in str(s[1]))) != [] or "re('match'" in T.show(num)) and "ProfilerStep" in T.show(num)
                     chk.ob("C12.R1-host-rule", "step array layout: [0]=ts, [1]=dur of the step annotation, [3]=the number parsed from its ProfilerStep#<n> name", okpos, where,
-                           found=names, accepted=["ts", "dur", "<name>", "<parsed number>", "..."], why="positional reads of the numpy rows must agree with the column order of the step frame")
+                           found=names + [T.show(num)[:160] if num is not None else None], accepted=["ts", "dur", "<name>", "<parsed number>", "..."], why="positional reads of the numpy rows must agree with the column order of the step frame")
                     srows = step[1][1][1]
                     chk.ob("C12.R1-host-rule", "step rows = events whose name id belongs to the symbols starting with 'ProfilerStep'", srows[0] == "in" and srows[1] == T.col(DF, "name")
                            and "sym_index" in T.show(srows[2]), where, found=T.show(srows)[:200], accepted="name in ids(ProfilerStep*)")
